@@ -33,7 +33,7 @@ func (v *kvValue) isDeleted() bool {
 	plain := *v.simple.Load()
 	children := v.children.Len()
 	token := v.lease.Load()
-	deleted := (plain == nil) && (children == 0) && (token == 0)
+	deleted := (len(plain) == 0) && (children == 0) && (token == 0)
 	return deleted
 }
 
